@@ -133,29 +133,46 @@ def run_hist(ro_text, msg_texts):
 
 
 def run_coll(texts, allow_incomplete, strict, how='strings', tmpdir=None):
-    with warnings.catch_warnings(record=True) as ws:
-        warnings.simplefilter('always')
-        try:
-            if how == 'strings':
-                mc = moscollection.MosCollection.from_strings(texts, allow_incomplete=allow_incomplete)
-            elif how == 'files':
-                paths = []
-                for i, t in enumerate(texts):
-                    p = os.path.join(tmpdir, 'f%04d.mos.xml' % i)
-                    with open(p, 'w', encoding='utf-8') as f:
-                        f.write(t)
-                    paths.append(p)
-                mc = moscollection.MosCollection.from_files(paths, allow_incomplete=allow_incomplete)
-            else:
-                raise ValueError(how)
-        except Exception as e:
-            return {'err0': ename(e)}
-        err = None
-        try:
-            mc.merge(strict=strict)
-        except Exception as e:
-            err = ename(e)
-    return {'err': err, 'warns': wnames(ws), 'tree': elem_to_tree(mc.ro.xml)}
+    saved = None
+    if how == 's3':
+        import fakes3
+        from mosromgr.utils import s3 as s3mod
+        saved = (s3mod, s3mod.s3._client, s3mod.s3._resource)
+        objects = {}
+        for i, t in enumerate(texts):
+            # key names whose lexicographic order differs from the numeric message-ID order
+            objects['ro/%d-%s.mos.xml' % ((i * 7) % 11, 'abcdefgh'[i % 8])] = t.encode('utf-8')
+        objects['ro/ignored.txt'] = b'not a mos file'
+        fakes3.install(s3mod, objects=objects)
+    try:
+        with warnings.catch_warnings(record=True) as ws:
+            warnings.simplefilter('always')
+            try:
+                if how == 'strings':
+                    mc = moscollection.MosCollection.from_strings(texts, allow_incomplete=allow_incomplete)
+                elif how == 'files':
+                    paths = []
+                    for i, t in enumerate(texts):
+                        p = os.path.join(tmpdir, 'f%04d.mos.xml' % i)
+                        with open(p, 'w', encoding='utf-8') as f:
+                            f.write(t)
+                        paths.append(p)
+                    mc = moscollection.MosCollection.from_files(paths, allow_incomplete=allow_incomplete)
+                elif how == 's3':
+                    mc = moscollection.MosCollection.from_s3(bucket_name='b', prefix='ro/', allow_incomplete=allow_incomplete)
+                else:
+                    raise ValueError(how)
+            except Exception as e:
+                return {'err0': ename(e)}
+            err = None
+            try:
+                mc.merge(strict=strict)
+            except Exception as e:
+                err = ename(e)
+        return {'err': err, 'warns': wnames(ws), 'tree': elem_to_tree(mc.ro.xml)}
+    finally:
+        if saved:
+            saved[0].s3._client, saved[0].s3._resource = saved[1], saved[2]
 
 
 def res_line(cls, err, warns, tree):
